@@ -370,6 +370,39 @@ def lastStop : Int → List Call → Int
   | t, [] => t
   | _, c :: cs => lastStop c.stop cs
 
+instance instDecEqExcept {ε α : Type} [DecidableEq ε] [DecidableEq α] : DecidableEq (Except ε α)
+  | .ok a, .ok b =>
+    if h : a = b then isTrue (by rw [h]) else isFalse (by intro h'; injection h' with h'; exact h h')
+  | .error a, .error b =>
+    if h : a = b then isTrue (by rw [h]) else isFalse (by intro h'; injection h' with h'; exact h h')
+  | .ok _, .error _ => isFalse (by intro h; cases h)
+  | .error _, .ok _ => isFalse (by intro h; cases h)
+
+/-! ### concrete witnesses used by the non-vacuity examples and counterexamples of Props/C08 -/
+
+/-- a plain chunk of run "0" as `strax.Chunk(...)` builds it (superrun = its own range) -/
+def plainChunk (dt k : String) (s e : Int) (rows : List Row) : Chunk :=
+  ⟨dt, k, some "0", s, e, rows, none, [⟨"0", s, e⟩], 1000⟩
+
+def witnessDeps : List Dep := [⟨"a", "ka"⟩, ⟨"b", "kb"⟩]
+
+/-- D9 in small: rows of two kinds in a brick pattern, cut at 12 and 13 -/
+def brickA : List Chunk :=
+  [plainChunk "a" "ka" 0 12 [⟨0, 2, 0⟩, ⟨2, 4, 1⟩, ⟨4, 6, 2⟩, ⟨6, 8, 3⟩, ⟨8, 10, 4⟩, ⟨10, 12, 5⟩],
+   plainChunk "a" "ka" 12 13 []]
+def brickB : List Chunk :=
+  [plainChunk "b" "kb" 0 13 [⟨1, 3, 0⟩, ⟨3, 5, 1⟩, ⟨5, 7, 2⟩, ⟨7, 9, 3⟩, ⟨9, 11, 4⟩, ⟨11, 13, 5⟩]]
+
+/-- an ordinary run: `a` in two chunks, `b` in one, a row of `b` straddling the cut of `a` -/
+def plainA : List Chunk :=
+  [plainChunk "a" "ka" 0 5 [⟨0, 2, 0⟩, ⟨3, 5, 1⟩], plainChunk "a" "ka" 5 10 [⟨6, 8, 2⟩]]
+def plainB : List Chunk := [plainChunk "b" "kb" 0 10 [⟨1, 4, 0⟩, ⟨4, 7, 1⟩]]
+
+/-- dependencies ending at different times: `b` goes on to 14 with one more row -/
+def longB : List Chunk := [plainChunk "b" "kb" 0 14 [⟨1, 4, 0⟩, ⟨4, 7, 1⟩, ⟨11, 13, 2⟩]]
+/-- `b` goes on to 14 but has no row after 10 -/
+def longEmptyB : List Chunk := [plainChunk "b" "kb" 0 14 [⟨1, 4, 0⟩, ⟨4, 7, 1⟩]]
+
 /-- "the re-trim loop does not run out of its ten passes": giving the loop more passes does not
 change the outcome.  Implied by an `ok` result (see Props/C08 `ok_passes_suffice`); it is the
 hypothesis of the totality statements and is false exactly on brick-pattern inputs (D9). -/
